@@ -38,14 +38,16 @@ def generate(rng, tier):
                       dict(start=bs + 0x100 + lenF, len=lenG, rows=[(0, delta_row(arch, 3))]),
                       dict(start=bs + 0x80, len=rJ + 4, rows=[(0, delta_row(arch, 6)), (rJ, delta_row(arch, 7))])]
                 endA = a0 + 0x100 + lenF + lenG
-                s.module_dwarf("M%d" % mi, a0, endA, a0, bs, pres, fA, rng, shuffle=rng.chance(1, 2))
+                # the mapped range of module A starts exactly at its first function (J), 0x80 above the base address
+                s.module_dwarf("M%d" % mi, a0 + 0x80, endA, a0, bs, pres, fA, rng, shuffle=rng.chance(1, 2))
                 s.add("add U M%d" % mi); mi += 1
                 fB = [dict(start=bs + 0, len=lenH, rows=[(0, delta_row(arch, 4))])]
                 s.module_dwarf("M%d" % mi, endA, endA + lenH + 0x10, endA, bs, pres, fB, rng)
                 s.add("add U M%d" % mi); mi += 1
                 e1 = a0 + 0x100 + lenF          # F|G boundary (same module)
                 e2 = endA                       # G|H boundary (module boundary)
-                probes += [(pres, "same", e1, 2, 3), (pres, "cross", e2, 3, 4), (pres, "row", a0 + 0x80 + rJ, 6, 7)]
+                probes += [(pres, "same", e1, 2, 3), (pres, "cross", e2, 3, 4), (pres, "row", a0 + 0x80 + rJ, 6, 7),
+                           (pres, "start", a0 + 0x80, None, 6)]
                 # module C: its last function runs to the very end of the image and nothing is mapped behind it
                 # (a noreturn call as the last instruction of the image; for the last C, of the whole address space known)
                 c0 = endA + lenH + 0x10 + 0x100 * rng.range(1, 4)
@@ -101,7 +103,8 @@ def generate(rng, tier):
                 s.add("newcache C")
                 ln = s.add("trace U C %s %s %s %d" % (hx(x0["pc"]), regs, mid, len(fr) + 3), tag="%s:macho-noreturn:%s" % (arch, x0["func"].shape))
                 k2 = arch == "x86" and x0["insn"] == "jmp" and x0["index"] > 0 and x0["func"].insns[x0["index"] - 1][1].kind == "add"
-                if not k2:          # (the innermost frame may sit on the known finding S19 of C02: not this property's subject)
+                from props import C02 as _c02
+                if not k2 and not any(_c02.big_bp(x["func"]) for x in fr):   # (known findings S19 / S21 of C02: not this property's subject)
                     s.meta[ln] = {"chain": [[(x["ra"] & mask) if arch == "a64" else x["ra"], x["caller"][0], x["caller"][1]] for x in fr[:-1]]}
             out.append(("macho-noreturn-%s-%d" % (arch, rep), s))
     return out
